@@ -144,3 +144,78 @@ func init() {
 			Expect: "C13.R8/firstWord#separators"},
 	)
 }
+
+// C13.R9: `stop`, `quit` and end of input reach a running search only as close(stop); the search
+// notices through the non-blocking poll in Search.abort, which is called at every node. The poll must
+// happen on every call (once the search is not already aborted and a stop channel exists): a poll
+// made to depend on anything else — a node-count throttle, a depth — can stop happening altogether
+// (the node counter is frozen at the budget while pondering), and then the driver never answers.
+func c13R9(c *Ctx, p *Prog) {
+	const rule = "C13.R9"
+	fn := p.Func("search.(*Search).abort")
+	if fn == nil {
+		c.Anchor(rule, "search.(*Search).abort")
+		return
+	}
+	n := 0
+	allInstrs(fn, func(in ssa.Instruction) {
+		sel, ok := in.(*ssa.Select)
+		if !ok {
+			return
+		}
+		// polls the stop channel?
+		polls := false
+		for _, st := range sel.States {
+			for v := range backSlice(st.Chan, sliceOpts{ThroughLoads: true}) {
+				if fa, ok := v.(*ssa.FieldAddr); ok {
+					if fr, ok := asFieldAddr(fa); ok && fr.Name() == "Options.Stop" {
+						polls = true
+					}
+				}
+			}
+		}
+		if !polls {
+			return
+		}
+		n++
+		bad := ""
+		for _, ce := range controllingConds(sel.Block()) {
+			okCond := false
+			for v := range backSlice(ce.Cond, sliceOpts{ThroughLoads: true}) {
+				if fa, ok := v.(*ssa.FieldAddr); ok {
+					if fr, ok := asFieldAddr(fa); ok && (fr.Name() == "Options.Stop" || fr.Name() == "Search.aborted") {
+						okCond = true
+					}
+				}
+			}
+			// a condition mentioning anything else as well is a throttle
+			for v := range backSlice(ce.Cond, sliceOpts{ThroughLoads: true}) {
+				if fa, ok := v.(*ssa.FieldAddr); ok {
+					if fr, ok := asFieldAddr(fa); ok && fr.Name() != "Options.Stop" && fr.Name() != "Search.aborted" {
+						okCond = false
+						bad = fr.Name()
+					}
+				}
+			}
+			if !okCond && bad == "" {
+				bad = "a condition on something other than the stop channel and the aborted flag"
+			}
+		}
+		if !sel.Blocking && bad == "" {
+			c.Ok(rule, "abort#poll-every-call", sel.Pos(), "the stop channel is polled (non-blocking) on every call of abort that is not already aborted")
+		} else if sel.Blocking {
+			c.Fail(rule, "abort#poll-every-call", sel.Pos(), "the stop poll blocks: the search would wait for a stop instead of searching")
+		} else {
+			c.Fail(rule, "abort#poll-every-call", sel.Pos(), "the stop channel is polled only under a condition on %s: when that condition stops holding (the node counter is frozen at the budget while pondering) stop/quit/EOF are never seen and no bestmove is printed", bad)
+		}
+	})
+	c.Floor(rule, n, 1, "polls of the stop channel in Search.abort")
+}
+
+func init() {
+	addMutants(
+		Mutant{Name: "C13.R9-stop-poll-throttled-by-node-count", Prop: "C13", File: "search/search.go",
+			Old: "\tif opts.Stop != nil {\n\t\tselect {", New: "\tif opts.Stop != nil && opts.Counters.Nodes&1023 == 0 {\n\t\tselect {",
+			Expect: "C13.R9/abort#poll-every-call"},
+	)
+}
